@@ -289,6 +289,12 @@ def flatten_extends(
 
         c = flatten_extends(c, extends.class_modification, parent=c.parent)
 
+        # Remember where inherited symbols were declared: the names used in
+        # their declaration (e.g. their type) are looked up in that class.
+        for sym in c.symbols.values():
+            if not hasattr(sym, "_declared_in"):
+                sym._declared_in = c.full_reference()
+
         # Imports are not inherited (spec 3.5 sections 5.3.1 and 7.1)
         # extended_orig_class.imports.update(c.imports)
         extended_orig_class.classes.update(c.classes)
@@ -444,7 +450,16 @@ def build_instance_tree(
 
         try:
             if not isinstance(sym.type, ast.InstanceClass):
-                c = extended_orig_class.find_class(sym.type)
+                try:
+                    c = extended_orig_class.find_class(sym.type)
+                except ast.ClassNotFoundError:
+                    # Inherited symbol: its type is visible from the class that declares it.
+                    declared_in = getattr(sym, "_declared_in", None)
+                    if declared_in is None:
+                        raise
+                    c = extended_orig_class.root.find_class(declared_in, copy=False).find_class(
+                        sym.type
+                    )
             else:
                 c = sym.type
         except ast.FoundElementaryClassError:
